@@ -22,10 +22,25 @@ EXPLANATION = (
     "nonempty, <timed-wait result>} proves on every path that a push happens only when not full and not closed and a "
     "front()/pop_front() only when non-empty, insertion only at the back, removal only at the front, close() removes "
     "nothing; R4 memory orders of the SPSC index operations by producer/consumer role; R5 slot access is bounded by "
-    "the full/empty test and precedes the index publication. Decides these clauses, not linearizability itself.")
+    "the full/empty test and precedes the index publication; a plain member that an operation assigns from a load of the other side's "
+    "index is that side's cached copy of it and may stand in for the index in the test only if it is touched by that side alone, written "
+    "there from loads of the index only, and re-established by every function that renumbers the positions (clear, resize). Calls to "
+    "private helpers of the same class are followed (single-expression helpers are read as their expression; a helper's entry knows what "
+    "its call sites know; paths continue behind the call sites). Decides these clauses, not linearizability itself.")
 NOT_DECIDED = ["linearizability / per-producer order as a history property (R3 gives the end discipline + lock order)",
                "fairness", "wrap-around of size_t indices after 2^64 operations",
                "resize()/clear() under concurrency (documented as requiring quiescence)"]
+# exempt from the function-inventory guard (report.py): these rules look into / out of functions they have never seen
+FOLLOWS_HELPERS = {
+    "C10-R2": "the push/pop → notify and flag-flip → notify_all obligations treat a helper every path of which notifies as the notify and continue behind the call sites "
+              "of a private helper that holds the change; the variables a wait predicate reads are collected through the helpers it calls; a flag flip moved into a helper is refused",
+    "C10-R5": "slot accesses, full/empty tests and index loads are read through expression helpers of the class (the call is the helper's returned expression over the "
+              "arguments); an unbounded access behind a call to any other helper of the class, and an index cache refreshed inside a helper, are refused, not reported",
+    "C10-R6": "exact evaluation: every index expression is evaluated after putting expression helpers in place; whatever else a helper could hide (a call inside an index "
+              "expression, an index store moved out of resize) makes the rule refuse",
+    "C10-R3": "the entry state of a private helper is the union of what its callers know at the call sites, wait predicates and conditions are read through expression "
+              "helpers, front/pop pairing is followed through helpers and call sites; a site that a lock-taking/waiting helper may guard is refused, not reported",
+}
 ASSUMPTIONS = ["_closed is treated as stable while _mutex is held; R2 discharges exactly that (writes of _closed hold _mutex)"]
 
 ACQ = {"std::memory_order_acquire", "std::memory_order_seq_cst", "std::memory_order_acq_rel", "std::memory_order_consume"}
@@ -52,46 +67,289 @@ def _queue_call(n, names=None):
     return m
 
 
+# ------------------------------------------------------------------ helpers of the same class (general; nothing here knows a helper's name)
+#
+# A behaviour-preserving refactoring moves a test, a slot access or a push/unlock/notify tail into a private member function.
+# The rules below follow such calls in three ways, all derived from the resolved program:
+#   * expression helpers — a member function whose whole body is `return <expr>;` called on `this`: the call IS that expression
+#     with the arguments in place of the parameters (_inline); conditions, wait predicates and slot accesses are read through it;
+#   * "does X" — an element does X if it is X or a call to helper(s) of the class every entry→exit path of which does X (_does);
+#   * calling contexts — what is known at the entry of a private helper is what is known at its call sites (R3), a path that
+#     leaves a private helper continues after each of its call sites (_escapes), and a site in a helper stands for one site per
+#     calling context (_contexts; keeps the instance floors meaningful when 6 copies of a tail become one helper with 6 callers).
+
+def _helper_fns(fb, cls, n):
+    """the member functions of `cls` a call node on the same object (`this->h(..)`, `h(..)`, static `h(..)`) resolves to"""
+    if not isinstance(n, dict) or n.get("k") not in ("call", "mcall"):
+        return []
+    if n.get("k") == "mcall" and strip_casts(n.get("obj") or {"k": "this"}).get("k") != "this":
+        return []
+    nargs = len(n.get("args", []))
+    return [g for g in fb.by_name.get(n.get("callee") or "", []) if g.ok and g.cls == cls and g.kind == "method" and len(g.params) == nargs]
+
+
+def _expr_helper(fb, cls, n):
+    """(Function, returned expression) when every overload/instantiation the call can mean has the one-statement body `return <expr>;`
+    and they all return the same expression (const / non-const twins); else None"""
+    gs = _helper_fns(fb, cls, n)
+    out = []
+    for g in gs:
+        roots = [e for e in g.stmts() if "root" in e.raw]
+        if len(roots) != 1 or roots[0].node.get("k") != "ret" or not isinstance(roots[0].node.get("v"), dict):
+            return None
+        out.append((g, roots[0].node["v"]))
+    if not out or len({show(x) for (_, x) in out}) != 1:
+        return None
+    return out[0]
+
+
+def _subst(n, table):
+    """copy of a callee expression with the parameters replaced by the caller's argument nodes (callee node ids are dropped:
+    they mean nothing in the caller)"""
+    if isinstance(n, list):
+        return [_subst(x, table) for x in n]
+    if not isinstance(n, dict):
+        return n
+    if n.get("k") == "var" and n.get("d") in table and n.get("parm") is not None:
+        return table[n["d"]]
+    return {k: (_subst(v, table) if isinstance(v, (dict, list)) else v) for k, v in n.items() if k != "id"}
+
+
+def _inline(fb, cls, n, depth=0):
+    """n with every call to an expression helper of `cls` (at any depth of the tree) replaced by the helper's expression"""
+    if isinstance(n, list):
+        return [_inline(fb, cls, x, depth) for x in n]
+    if not isinstance(n, dict):
+        return n
+    if n.get("k") in ("call", "mcall") and depth < 6:
+        h = _expr_helper(fb, cls, n)
+        if h is not None:
+            g, body = h
+            table = {p["d"]: _inline(fb, cls, a, depth) for p, a in zip(g.params, n.get("args", []))}
+            return _inline(fb, cls, _subst(body, table), depth + 1)
+    changed = False
+    out = {}
+    for k, v in n.items():
+        if isinstance(v, (dict, list)):
+            nv = _inline(fb, cls, v, depth)
+            changed = changed or nv is not v
+            out[k] = nv
+        else:
+            out[k] = v
+    return out if changed else n
+
+
+def _calls_helper(fb, cls, n):
+    return any(_helper_fns(fb, cls, x) for x in walk(n))
+
+
+def _is_internal(fb, cg, cls, f):
+    """a private/protected member function reached only from functions (and lambdas) of its own class: its calling contexts
+    are all visible"""
+    if f.kind != "method" or f.access not in ("private", "protected"):
+        return False
+    sites = cg.callers.get(f.name, [])
+    return bool(sites) and all(g.cls == cls or (g.kind == "lambda" and g.name.startswith(cls + "::")) for (g, e, n) in sites)
+
+
+def _contexts(fb, cg, cls, f, depth=0):
+    """number of calling contexts of f: 1 for an operation of the class, the sum over its call sites for an internal helper"""
+    if depth > 6 or not _is_internal(fb, cg, cls, f):
+        return 1
+    return max(1, sum(_contexts(fb, cg, cls, g, depth + 1) for (g, e, n) in cg.callers.get(f.name, []) if g.ok))
+
+
+def _always(fb, cls, g, pred, depth=0):
+    """every path from the entry of g to its normal exit passes an element that does `pred`"""
+    if depth > 4:
+        return False
+    return search(g, ("entry",), "exit", stop=_does(fb, cls, pred, depth + 1), eh=False) is None
+
+
+def _does(fb, cls, pred, depth=0):
+    """element predicate: x satisfies pred, or x is a call to helper(s) of the class each of which always does"""
+    def does(x):
+        if pred(x):
+            return True
+        if x.kind != "stmt":
+            return False
+        gs = _helper_fns(fb, cls, x.node)
+        return bool(gs) and all(_always(fb, cls, g, pred, depth) for g in gs)
+    return does
+
+
+def _escapes(fb, cg, cls, f, start, stop, edge_ok=None, depth=0, also_goal=None):
+    """witness string of a path from `start` (an element of f, or ('entry',)) to where the OPERATION returns (or to an element
+    satisfying also_goal) that passes no element satisfying `stop`: when the path leaves an internal helper it continues behind
+    each of the helper's call sites"""
+    if also_goal is not None:
+        w0 = search(f, start, also_goal, stop=stop, edge_ok=edge_ok, eh=False)
+        if w0 is not None:
+            return witness_str(f, w0)
+    w = search(f, start, "exit", stop=stop, edge_ok=edge_ok, eh=False)
+    if w is None:
+        return None
+    if not _is_internal(fb, cg, cls, f):
+        return witness_str(f, w)
+    if depth > 4:
+        raise AnalysisBroken("%s: helper call chain deeper than this rule follows" % short(f.name))
+    for (g, ce, n) in cg.callers.get(f.name, []):
+        if not g.ok:
+            continue
+        if g.kind == "lambda":
+            raise AnalysisBroken("%s is reached from a lambda (%s): the path behind that call is not followed" % (short(f.name), short(g.name)))
+        w2 = _escapes(fb, cg, cls, g, ce, stop, None, depth + 1, also_goal)
+        if w2 is not None:
+            return "%s ⇒ %s: %s" % (witness_str(f, w), short(g.name), w2)
+    return None
+
+
+def _transitive_helpers(fb, cls, f, seen=None):
+    """f and every helper of the class reachable from it through calls on `this`"""
+    seen = {} if seen is None else seen
+    if f.sig in seen:
+        return seen
+    seen[f.sig] = f
+    for n in f.nodes.values():
+        for g in _helper_fns(fb, cls, n):
+            _transitive_helpers(fb, cls, g, seen)
+    return seen
+
+
 # ------------------------------------------------------------------ R1/R2
 
 def r1(ctx, r):
     fb = ctx.fb()
     la = ctx.locks()
+    cg = ctx.cg()
     common.guarded_by(r, fb, la, BQ + "::_queue", BQ + "::_mutex")
+    # an access inside an internal helper stands for one access per calling context (the lockset of the helper's entry is the
+    # intersection over exactly those call sites, locks.py): count it that way, so that the floor keeps measuring "the rule sees
+    # the queue's operations" when duplicated code is folded into a helper
+    for (f, e, node, kind) in access.accesses(fb, BQ + "::_queue"):
+        if e is not None and not (f.kind in ("ctor", "dtor") and f.cls == BQ):
+            k = _contexts(fb, cg, BQ, f)
+            if k > 1:
+                r.instance(k - 1)
     r.floor(20, "access sites of _queue")
+
+
+def _local_bool_of(f, c):
+    """the node a condition operand stands for: a bool local that is initialised once and never assigned again is its initialiser
+    (`const bool was = flag.exchange(true); …; if (was)` tests the exchange's result wherever the test is placed)"""
+    c = strip_casts(c)
+    if c is None or c.get("k") != "var" or c.get("parm") is not None:
+        return c
+    d = c.get("d")
+    for n in f.nodes.values():
+        if n.get("k") in ("bin", "opcall") and str(n.get("op", "")).endswith("=") and n.get("op") not in ("==", "!=", "<=", ">="):
+            lhs = n.get("lhs") if n.get("k") == "bin" else (n.get("args") or [None])[0]
+            if lhs is not None and strip_casts(lhs).get("k") == "var" and strip_casts(lhs).get("d") == d:
+                return c
+        if n.get("k") == "un" and ("++" in n.get("op", "") or "--" in n.get("op", "") or n.get("op") == "&") and strip_casts(n.get("v") or {}).get("d") == d \
+                and strip_casts(n.get("v") or {}).get("k") == "var":
+            return c
+    for e in f.stmts():
+        if e.node.get("k") == "decl":
+            for v in e.node["vars"]:
+                if v["d"] == d and v["t"].replace("const ", "").strip() == "bool" and isinstance(v.get("init"), dict):
+                    return strip_casts(v["init"])
+    return c
+
+
+def _cv_pred_helpers(r, fb, la):
+    """common.cv_discipline reads the variables of a wait predicate off the lambda's own body.  A predicate that calls helper(s)
+    of the class (`[this] { return hasSpaceOrClosed(); }`) reads the helpers' variables: the same obligation — written only with
+    the wait's mutex held, or the mutex taken between the write and the notify — is discharged here for those."""
+    seen = set()
+    for w in common.cv_waits(fb, lambda f: f.file.endswith(BQ_FILE)):
+        f, e, P = w["f"], w["e"], w["pred"]
+        if P is None or (f.file, e.line) in seen:
+            continue
+        seen.add((f.file, e.line))
+
+        def fields(g):
+            return {n["n"] for n in g.nodes.values() if n.get("k") == "member" and "t" in n and not n.get("t", "").startswith(("std::mutex", "std::condition_variable"))}
+        extra = set()
+        for g in _transitive_helpers(fb, BQ, P).values():
+            if g is not P:
+                extra |= fields(g)
+        extra -= fields(P)
+        if not extra:
+            continue
+        lv = w["lockvar"]
+        fl = la.fn(f)
+        ms = fl.lockvars[lv["d"]][0] if lv is not None and lv.get("k") == "var" and lv.get("d") in fl.lockvars else None
+        if not ms:
+            raise AnalysisBroken("cannot identify the mutex of the wait at %s" % f.loc(e))
+        mtx, cvf = ms[0], w["cv"]
+        for fld in sorted(extra):
+            for (g, ge, gn, kind) in access.accesses(fb, fld):
+                if kind not in ("write", "rw") or ge is None or g.kind == "ctor":
+                    continue
+                r.instance()
+                if la.holds(g, ge, mtx):
+                    r.ok("%s writes %s under %s (read through a helper by the predicate of the wait in %s)" % (short(g.name), last(fld), last(mtx), short(f.name)))
+                    continue
+
+                def is_notify(x):
+                    return x.kind == "stmt" and x.node.get("k") == "mcall" and last(x.node.get("callee", "")) in ("notify_one", "notify_all") and field_of(x.node.get("obj")) == cvf
+
+                def takes_mutex(x):
+                    if x.kind != "stmt":
+                        return False
+                    n2 = x.node
+                    if n2.get("k") == "decl":
+                        return any(v["d"] in la.fn(g).lockvars and mtx in la.fn(g).lockvars[v["d"]][0] and not la.fn(g).lockvars[v["d"]][2] for v in n2["vars"])
+                    return n2.get("k") == "mcall" and n2.get("callee") == "std::mutex::lock" and field_of(n2.get("obj")) == mtx
+                wit = search(g, ge, is_notify, stop=takes_mutex)
+                if wit is None or w["timed"]:
+                    r.ok("%s writes %s outside the lock; %s" % (short(g.name), last(fld), "the waiter is timed (bounded delay)" if wit is not None else "takes %s before notifying" % last(mtx)))
+                    continue
+                r.fail(g, ge, "write %s then notify %s" % (last(fld), last(cvf or "?")),
+                       "lost wake-up: %s is read (through a helper) by the predicate of the untimed wait at %s under %s, but is written here "
+                       "without that mutex and the notify follows with the mutex never taken in between" % (fld, f.loc(e), mtx), witness_str(g, wit))
 
 
 def r2(ctx, r):
     fb = ctx.fb()
     la = ctx.locks()
+    cg = ctx.cg()
     n = common.cv_discipline(r, fb, la, lambda f: f.file.endswith(BQ_FILE))
     if n < 6:
         raise AnalysisBroken("C10-R2: %d condition-variable waits found in blocking_queue.hpp, expected >= 6" % n)
-    # every state change that can make a predicate true is followed by the matching notify
+    _cv_pred_helpers(r, fb, la)
+    # every state change that can make a predicate true is followed by the matching notify — in the same function, in a helper
+    # every path of which notifies, or (when the change itself sits in a private helper) behind each call of that helper
     pairs = {"push_back": "_condNotEmpty", "emplace_back": "_condNotEmpty", "pop_front": "_condNotFull"}
     for f in _bq_methods(fb):
         for e in f.stmts():
             m = _queue_call(e.node, pairs)
             if not m:
                 continue
-            r.instance()
+            r.instance(_contexts(fb, cg, BQ, f))
             cvf = BQ + "::" + pairs[m]
 
             def is_notify(x, cvf=cvf):
                 return x.kind == "stmt" and x.node.get("k") == "mcall" and last(x.node.get("callee", "")) in ("notify_one", "notify_all") \
                     and field_of(x.node.get("obj")) == cvf
-            w = search(f, e, "exit", stop=is_notify, eh=False)
+            w = _escapes(fb, cg, BQ, f, e, _does(fb, BQ, is_notify))
             r.expect(w is None, f, e, "%s without notify %s" % (m, pairs[m]),
                      "a path from _queue.%s() to the function exit does not notify %s: a waiter whose condition became true is not woken" % (m, pairs[m]),
                      okdesc="%s: %s is followed by notify on %s on every path" % (short(f.name), m, pairs[m]),
-                     witness=witness_str(f, w))
+                     witness=w or "")
     # close(): sets the flag and notifies both CVs on every path where the flag was flipped
     close = fb.func(BQ + "::close")
-    flips = [e for e in close.stmts() if e.node.get("k") == "mcall" and field_of(e.node.get("obj")) == BQ + "::_closed"
-             and last(e.node.get("callee", "")) in ("exchange", "store")] + \
-            [e for e in close.stmts() if e.node.get("k") in ("opcall", "bin") and e.node.get("op") == "=" and
-             field_of((e.node.get("args") or [e.node.get("lhs")])[0]) == BQ + "::_closed"]
+
+    def flips_in(g):
+        return [e for e in g.stmts() if e.node.get("k") == "mcall" and field_of(e.node.get("obj")) == BQ + "::_closed"
+                and last(e.node.get("callee", "")) in ("exchange", "store")] + \
+               [e for e in g.stmts() if e.node.get("k") in ("opcall", "bin") and e.node.get("op") == "=" and
+                field_of((e.node.get("args") or [e.node.get("lhs")])[0]) == BQ + "::_closed"]
+    flips = flips_in(close)
     if not flips:
+        if any(flips_in(g) for g in _transitive_helpers(fb, BQ, close).values()):
+            raise AnalysisBroken("close() sets _closed inside a helper: the flag-flip → notify_all path is not followed across that call")
         r.fail(close, None, "close sets _closed", "close() no longer sets the closed flag")
     for e in flips:
         for cv in ("_condNotEmpty", "_condNotFull"):
@@ -100,30 +358,40 @@ def r2(ctx, r):
             def is_notify_all(x, cv=cv):
                 return x.kind == "stmt" and x.node.get("k") == "mcall" and last(x.node.get("callee", "")) == "notify_all" \
                     and field_of(x.node.get("obj")) == BQ + "::" + cv
-            # the "already closed" early return is the only path allowed to skip the notify: it is the true
-            # edge of the exchange result; we accept skipping only through a return that directly follows a
-            # branch on the flip's own result
+            # the "already closed" early return is the only path allowed to skip the notify: it is the edge on which the flip's
+            # own result (the previous value of the flag) is true — tested directly (`if (_closed.exchange(true))`) or through
+            # a bool local that holds nothing but that result (`const bool was = _closed.exchange(true); unlock; if (was) return;`);
+            # which edge that is follows from the condition's polarity (common.branch removes the `!`s)
             def edge_ok(b, si, e=e):
-                c = b.cond
-                if c is not None and c.get("id") == e.node.get("id") and b.edge_label(si) is True:
+                c, st, sf = common.branch(b)
+                if c is None:
+                    return True
+                c = _local_bool_of(close, c)
+                if c is not None and c.get("id") is not None and c.get("id") == e.node.get("id") and b.succs[si] == st and st != sf:
                     return False   # exchange returned true: was already closed, somebody else notified
                 return True
-            w = search(close, e, "exit", stop=is_notify_all, edge_ok=edge_ok, eh=False)
+            w = search(close, e, "exit", stop=_does(fb, BQ, is_notify_all), edge_ok=edge_ok, eh=False)
             r.expect(w is None, close, e, "close without notify_all %s" % cv,
                      "close() can return after flipping the flag without notify_all on %s: blocked callers are not woken" % cv,
                      okdesc="close(): flag flip is followed by notify_all on %s" % cv, witness=witness_str(close, w))
-    # close() never removes items
-    for e in close.stmts():
-        m = _queue_call(e.node)
-        if m in access.MUTATORS:
-            r.fail(close, e, "close mutates _queue", "close() calls _queue.%s(): items put before close must stay retrievable" % m)
+    # close() never removes items (neither itself nor through a helper it calls)
+    for g in _transitive_helpers(fb, BQ, close).values():
+        for e in g.stmts():
+            m = _queue_call(e.node)
+            if m in access.MUTATORS:
+                r.fail(close, e if g is close else None, "close mutates _queue", "close() calls _queue.%s()%s: items put before close must stay retrievable" % (m, "" if g is close else " (in %s)" % short(g.name)))
 
 
 # ------------------------------------------------------------------ R3 (predicate abstraction)
 
-def _mk_leaf(boolvars):
+def _mk_leaf(boolvars, fb=None):
     def leaf(n):
         k = n.get("k")
+        # a call to an expression helper of the queue (`hasSpace()`, `isClosed()`, `hasSpaceOrClosed()`) is the helper's expression
+        if fb is not None and k in ("call", "mcall"):
+            h = _expr_helper(fb, BQ, n)
+            if h is not None:
+                return translate(_inline(fb, BQ, n), leaf)
         # _closed / _closed.load(...)
         if k == "mcall" and field_of(n.get("obj")) == BQ + "::_closed" and (last(n["callee"]) == "load" or last(n["callee"]).startswith("operator")):
             return A("closed")
@@ -166,12 +434,61 @@ def _mk_leaf(boolvars):
 def r3(ctx, r):
     fb = ctx.fb()
     la = ctx.locks()
+    cg = ctx.cg()
     shared = ["notfull", "closed", "nonempty"]
-    nsites = 0
-    for f in _bq_methods(fb):
-        if f.kind == "lambda":
-            continue
-        # boolean locals initialised from a timed wait
+    methods = [f for f in _bq_methods(fb) if f.kind != "lambda"]
+    _imp = {}
+
+    def impure(g):
+        """g (or a helper it calls) changes what the atoms speak about: it mutates the queue, takes/releases a lock, waits or
+        writes the closed flag.  After a call to such a helper nothing is known in the caller."""
+        if g.sig not in _imp:
+            _imp[g.sig] = False
+            for h in _transitive_helpers(fb, BQ, g).values():
+                for e in h.stmts():
+                    n = e.node
+                    k = n.get("k")
+                    if (k == "decl" and any(v["t"].startswith(("std::unique_lock", "std::lock_guard", "std::scoped_lock")) for v in n["vars"])) \
+                            or (k == "mcall" and ((n.get("callee", "").startswith("std::condition_variable") and last(n["callee"]) in common.CV_WAIT)
+                                                  or (n.get("callee", "").startswith(("std::unique_lock", "std::mutex")) and last(n["callee"]) in ("lock", "unlock", "release", "try_lock"))
+                                                  or _queue_call(n) in access.MUTATORS
+                                                  or (field_of(n.get("obj")) == BQ + "::_closed" and last(n.get("callee", "")) in access.MUTATORS))) \
+                            or (k in ("bin", "opcall") and n.get("op") == "=" and field_of((n.get("args") or [n.get("lhs")])[0]) == BQ + "::_closed"):
+                        _imp[g.sig] = True
+        return _imp[g.sig]
+
+    def impure_call(x):
+        if x.kind != "stmt":
+            return False
+        gs = _helper_fns(fb, BQ, x.node)
+        return bool(gs) and any(impure(g) for g in gs)
+    pas = {}
+    building = set()
+
+    def build(f):
+        """the abstraction of f; for an internal helper the entry state is the union, over its call sites, of what the caller
+        knows there about the shared atoms (a helper that pushes is as guarded as its callers make it)"""
+        if f.sig in pas:
+            return pas[f.sig]
+        if f.sig in building:
+            raise AnalysisBroken("C10-R3: recursive helper %s" % short(f.name))
+        building.add(f.sig)
+        init = T
+        sites = cg.callers.get(f.name, [])
+        if _is_internal(fb, cg, BQ, f) and all(g.kind == "method" and g.cls == BQ for (g, ce, n) in sites):
+            feas = set()
+            for (g, ce, n) in sites:
+                if not g.ok:
+                    continue
+                pg = build(g)
+                st = pg.flow.before(ce)
+                if st is None:
+                    continue
+                for a in range(pg.v.size):
+                    if st >> a & 1:
+                        feas.add(a & ((1 << len(shared)) - 1))     # the shared atoms are the first of every vocabulary
+            init = Or(*[And(*[A(x) if a >> i & 1 else Not(A(x)) for i, x in enumerate(shared)]) for a in sorted(feas)])
+        # boolean locals (e.g. initialised from a timed wait)
         boolvars = set()
         for e in f.stmts():
             if e.node.get("k") == "decl":
@@ -179,13 +496,13 @@ def r3(ctx, r):
                     if v["t"] == "bool":
                         boolvars.add("v:" + v["n"])
         vocab = Vocab(shared + sorted(boolvars))
-        leaf = _mk_leaf(boolvars)
+        leaf = _mk_leaf(boolvars, fb)
 
         def pred_formula(call):
             args = [a for a in call["args"] if not a.get("def")]
             P = common._resolve_pred(fb, f, args[-1]) if args else None
             if P is None:
-                return None
+                raise AnalysisBroken("C10-R3: cannot resolve the predicate of the wait at %s" % f.loc(call))
             rets = [x.node for x in P.stmts() if x.node.get("k") == "ret"]
             if len(rets) != 1:
                 return None
@@ -196,6 +513,8 @@ def r3(ctx, r):
                 return None
             n = e.node
             k = n.get("k")
+            if impure_call(e):
+                return [("havoc_all", shared)]
             if k == "decl":
                 ops = []
                 if any(v["t"].startswith(("std::unique_lock", "std::lock_guard", "std::scoped_lock")) for v in n["vars"]):
@@ -204,7 +523,7 @@ def r3(ctx, r):
                 for v in n["vars"]:
                     i = strip_wrappers(v.get("init")) if v.get("init") else None
                     if i is not None and i.get("k") == "mcall" and last(i.get("callee", "")) in ("wait_for", "wait_until"):
-                        fm = pred_formula(i)
+                        fm = pred_formula(i) if len([a for a in i["args"] if not a.get("def")]) >= 3 else None
                         ops.append(("havoc_all", shared))
                         tf = total(fm)
                         if ("v:" + v["n"]) in boolvars:
@@ -233,86 +552,156 @@ def r3(ctx, r):
                 if m in ("pop_front", "pop_back", "erase", "clear"):
                     return [("havoc", "nonempty")]
             return None
+        pa = PredAbs(f, vocab, leaf, effects, init=init)
+        building.discard(f.sig)
+        pas[f.sig] = pa
+        return pa
 
-        pa = PredAbs(f, vocab, leaf, effects)
+    def unguarded(f, e, construct, msg, need):
+        """a site whose guard is not established on every path.  If a helper that waits / locks / changes the queue runs on a
+        path to the site — in this function or, for an internal helper, in a caller on the way to the call — the guard may be
+        established in there (`if (!waitForSpace(lock)) return false; push`): this rule keeps no summary of what such a helper
+        returns knowing, so that shape is refused, not reported.  For a site inside an internal helper the callers that reach
+        it without the guard are named."""
+        def refuse_if_hidden(g, at, depth=0):
+            for x in g.stmts():
+                if impure_call(x) and search(g, x, lambda y: y is at, eh=False) is not None:
+                    raise AnalysisBroken("C10-R3: %s [%s]: the helper call `%s` in %s on a path to this site may establish the guard; what such a helper returns knowing is not summarised by this rule"
+                                         % (short(f.name), construct, show(x.node)[:60], short(g.name)))
+            if depth < 4 and _is_internal(fb, cg, BQ, g):
+                for (h, ce, n) in cg.callers.get(g.name, []):
+                    if h.ok and h.kind != "lambda":
+                        refuse_if_hidden(h, ce, depth + 1)
+        refuse_if_hidden(f, e)
+        via = []
+        if _is_internal(fb, cg, BQ, f):
+            for (g, ce, n) in cg.callers.get(f.name, []):
+                if g.ok and g.kind == "method" and g.cls == BQ and not build(g).entails(ce, need):
+                    via.append("%s (line %d, knows: %s)" % (g.sig.split("::")[-1], ce.line, ", ".join(build(g).describe(ce)) or "nothing"))
+        r.fail(f, e, construct, msg + ("; reached without the guard from " + "; ".join(sorted(set(via))) if via else ""))
+
+    def dominated_by(f, e, pred, depth=0):
+        """an element doing `pred` is executed before e on every path — in f, or (internal helper) before every call of f"""
+        does = _does(fb, BQ, pred)
+        if any(does(x) and elem_dominates(f, x, e) for x in f.stmts()):
+            return True
+        if depth < 4 and _is_internal(fb, cg, BQ, f):
+            sites = [(g, ce) for (g, ce, n) in cg.callers.get(f.name, []) if g.ok]
+            return bool(sites) and all(g.kind != "lambda" and dominated_by(g, ce, pred, depth + 1) for (g, ce) in sites)
+        return False
+
+    def is_pop(x):
+        return x.kind == "stmt" and _queue_call(x.node, ("pop_front",)) is not None
+
+    def is_front(x):
+        return x.kind == "stmt" and _queue_call(x.node, ("front",)) is not None
+
+    def releases(x):
+        """the lock is (or may be) released here: unlock, a wait, or a helper that does either"""
+        if x.kind != "stmt":
+            return False
+        n = x.node
+        if n.get("k") == "mcall" and (n.get("callee") == "std::unique_lock::unlock" or (n.get("callee", "").startswith("std::condition_variable") and last(n["callee"]) in common.CV_WAIT)):
+            return True
+        return any(releases(y) for g in _helper_fns(fb, BQ, n) for h in _transitive_helpers(fb, BQ, g).values() for y in h.stmts() if not _helper_fns(fb, BQ, y.node))
+    for f in methods:
+        pa = build(f)
+        k = _contexts(fb, cg, BQ, f)
         for e in f.stmts():
             m = _queue_call(e.node)
             if not m:
                 continue
             if m in ("push_back", "emplace_back"):
-                nsites += 1
-                r.instance()
-                ok = pa.entails(e, And(A("notfull"), Not(A("closed")))) and la.holds(f, e, BQ + "::_mutex")
-                r.expect(ok, f, e, "push_back unguarded",
-                         "on some path to this insertion the queue is not known to be below capacity and open "
-                         "(known here: %s) — the capacity bound or the closed contract can be violated" % (", ".join(pa.describe(e)) or "nothing"),
-                         okdesc="%s: push_back only when size<max and !closed (%s)" % (f.sig.split("::")[-1], ",".join(pa.describe(e))))
+                r.instance(k)
+                if pa.entails(e, And(A("notfull"), Not(A("closed")))) and la.holds(f, e, BQ + "::_mutex"):
+                    r.ok("%s: push_back only when size<max and !closed (%s)" % (f.sig.split("::")[-1], ",".join(pa.describe(e))))
+                else:
+                    unguarded(f, e, "push_back unguarded",
+                              "on some path to this insertion the queue is not known to be below capacity and open "
+                              "(known here: %s) — the capacity bound or the closed contract can be violated" % (", ".join(pa.describe(e)) or "nothing"), And(A("notfull"), Not(A("closed"))))
             elif m in ("push_front", "emplace_front", "insert", "emplace"):
                 r.instance()
                 r.fail(f, e, "insert not at back", "_queue.%s(): items must be inserted at the back only (FIFO end discipline)" % m)
             elif m in ("front", "pop_front"):
-                nsites += 1
-                r.instance()
-                ok = pa.entails(e, A("nonempty")) and la.holds(f, e, BQ + "::_mutex")
-                r.expect(ok, f, e, "%s unguarded" % m,
-                         "_queue.%s() reachable with the queue not known to be non-empty (known: %s)" % (m, ", ".join(pa.describe(e)) or "nothing"),
-                         okdesc="%s: %s only when non-empty" % (f.sig.split("::")[-1], m))
+                r.instance(k)
+                if pa.entails(e, A("nonempty")) and la.holds(f, e, BQ + "::_mutex"):
+                    r.ok("%s: %s only when non-empty" % (f.sig.split("::")[-1], m))
+                else:
+                    unguarded(f, e, "%s unguarded" % m,
+                              "_queue.%s() reachable with the queue not known to be non-empty (known: %s)" % (m, ", ".join(pa.describe(e)) or "nothing"), A("nonempty"))
             elif m in ("pop_back", "erase", "clear", "back", "resize", "swap", "assign"):
                 r.instance()
                 r.fail(f, e, "removal not at front", "_queue.%s(): items leave the queue only through front()+pop_front() (lossless FIFO)" % m)
-        # each item is taken exactly once: front() is read then popped in the same critical section
+        # each item is taken exactly once: front() is read then popped in the same critical section (the pop may sit in a helper,
+        # or — when front() itself sits in a helper — behind the helper's call sites)
         for e in f.stmts():
-            if _queue_call(e.node, ("front",)):
-                r.instance()
-
-                def is_pop(x):
-                    return x.kind == "stmt" and _queue_call(x.node, ("pop_front",)) is not None
-
-                def is_unlock(x):
-                    return x.kind == "stmt" and x.node.get("k") == "mcall" and x.node.get("callee") == "std::unique_lock::unlock"
-                w = search(f, e, "exit", stop=is_pop, eh=False)
-                w2 = search(f, e, is_unlock, stop=is_pop, eh=False)
-                r.expect(w is None and w2 is None, f, e, "front without pop",
+            if is_front(e):
+                r.instance(k)
+                w = _escapes(fb, cg, BQ, f, e, _does(fb, BQ, is_pop), also_goal=releases)
+                r.expect(w is None, f, e, "front without pop",
                          "the item read by front() is not removed by pop_front() before the lock is released / the function returns: "
                          "it could be delivered twice", okdesc="%s: front() then pop_front() in one critical section" % f.sig.split("::")[-1],
-                         witness=witness_str(f, w or w2))
-            if _queue_call(e.node, ("pop_front",)):
-                r.instance()
-                fronts = [x for x in f.stmts() if _queue_call(x.node, ("front",)) and elem_dominates(f, x, e)]
-                r.expect(bool(fronts), f, e, "pop without front", "pop_front() discards an item that was not read by a dominating front(): an item is lost",
+                         witness=w or "")
+            if is_pop(e):
+                r.instance(k)
+                r.expect(dominated_by(f, e, is_front), f, e, "pop without front", "pop_front() discards an item that was not read by a dominating front(): an item is lost",
                          okdesc="pop_front dominated by front()")
     r.floor(14, "push/front/pop sites")
 
 
 # ------------------------------------------------------------------ R4/R5 (SPSC ring buffers)
 
-def _atomic_ops(f, cls):
-    """[(elem, field, 'load'|'store'|'rmw', order-name)] for _head/_tail"""
+def _atomic_ops(f, cls, fb=None):
+    """[(elem, field, 'load'|'store'|'rmw', order-name)] for _head/_tail — written out in f, or made through an expression helper of
+    the class (`loadTail()` = `return _tail.load(acquire);`): the operation then happens at the call, with the helper's order"""
     out = []
-    for e in f.stmts():
-        n = e.node
+
+    def order_of(n):
+        for a in n["args"]:
+            if a.get("k") == "enum" and a["n"].startswith("std::memory_order"):
+                return a["n"]
+            if a.get("k") == "cast" and a.get("v", {}).get("k") == "enum":
+                return a["v"]["n"]
+        return "std::memory_order_seq_cst"
+
+    def op_of(n):
         if n.get("k") == "mcall":
             fld = field_of(n.get("obj"))
             if fld in (cls + "::_head", cls + "::_tail"):
                 m = last(n.get("callee", ""))
-                order = "std::memory_order_seq_cst"
-                for a in n["args"]:
-                    if a.get("k") == "enum" and a["n"].startswith("std::memory_order"):
-                        order = a["n"]
-                        break
-                    if a.get("k") == "cast" and a.get("v", {}).get("k") == "enum":
-                        order = a["v"]["n"]
-                        break
                 kind = {"load": "load", "store": "store"}.get(m, "load" if m.startswith("operator") and not m.endswith("=") else "rmw")
-                out.append((e, last(fld), kind, order))
+                return (last(fld), kind, order_of(n))
         elif n.get("k") == "opcall" and n.get("memberop") and n["args"]:
             fld = field_of(n["args"][0])
             if fld in (cls + "::_head", cls + "::_tail"):
-                out.append((e, last(fld), "store" if n["op"] == "=" else "rmw", "std::memory_order_seq_cst"))
+                return (last(fld), "store" if n["op"] == "=" else "rmw", "std::memory_order_seq_cst")
+        return None
+    for e in f.stmts():
+        n = e.node
+        o = op_of(n)
+        if o is not None:
+            out.append((e,) + o)
+        elif fb is not None and n.get("k") in ("call", "mcall") and _expr_helper(fb, cls, n) is not None:
+            for x in walk(_inline(fb, cls, n)):
+                o = op_of(x)
+                if o is not None:
+                    out.append((e,) + o)
     return out
 
 
-def _buffer_accesses(f, cls):
+def _is_slot_expr(cls, x):
+    x = strip_casts(x)
+    if x is None:
+        return False
+    if x.get("k") == "idx":
+        return field_of(x.get("b")) == cls + "::_buffer"
+    return x.get("k") == "opcall" and x.get("op") == "[]" and bool(x.get("args")) and field_of(x["args"][0]) == cls + "::_buffer"
+
+
+def _buffer_accesses(f, cls, fb=None):
+    """[(element, slot expression, 'read'|'write'|'rw')]: every `_buffer[...]` of f — written out, or obtained through an
+    expression helper of the class that returns the slot (`T& slot(pos) { return _buffer[pos & mask]; }`): then the call is the
+    access, its use in the caller says read or write, and the slot expression is the helper's with the arguments put in"""
     res = []
     for n in f.nodes.values():
         if n.get("k") == "member" and n.get("n") == cls + "::_buffer":
@@ -325,7 +714,109 @@ def _buffer_accesses(f, cls):
             if p is not None and (p.get("k") == "idx" or (p.get("k") == "opcall" and p.get("op") == "[]")):
                 kind = access.classify(f, p)
                 res.append((f.elem_for(p), p, kind))
+        elif fb is not None and n.get("k") in ("call", "mcall") and n.get("id") is not None and _expr_helper(fb, cls, n) is not None:
+            x = _inline(fb, cls, n)
+            if _is_slot_expr(cls, x) and f.elem_for(n) is not None:
+                res.append((f.elem_for(n), strip_casts(x), access.classify(f, n)))
     return res
+
+
+# ---- cached copies of the other side's index (the classic SPSC optimisation: re-load the other index only when the cached value
+# says full/empty).  Nothing here knows a field name: a cache is a plain (non-atomic) member that some operation assigns from a
+# load of _head / _tail.
+
+_CACHES = {}     # class -> {field qname: '_head' | '_tail'}, 'fb' -> the fact base; set by r4_r5 for the run in progress
+
+
+def _find_index_caches(fb, cls, ms):
+    out = {}
+    for f in ms:
+        for n in f.nodes.values():
+            if n.get("k") != "member" or not n.get("n", "").startswith(cls + "::") or n.get("t", "").startswith(("std::atomic", "std::unique_ptr", "std::array")):
+                continue
+            if access.classify(f, n) not in ("write", "rw"):
+                continue
+            v = common.assigned_value(f, n)
+            for x in ("_head", "_tail"):
+                if v is not None and _is_index_load(f, cls, v, x, direct=True):
+                    if out.get(n["n"], x) != x:
+                        raise AnalysisBroken("%s is assigned from loads of both indices: not a form this rule classifies" % short(n["n"]))
+                    out[n["n"]] = x
+    return out
+
+
+def _cache_discipline(r5, fb, cls, ms, role_of, caches):
+    """A cached copy F of the other side's index X stands in for X in the full/empty test (accepted by _is_index_load).  That is
+    sound exactly while  own index <= F <= X  (head cache; mirrored for a tail cache), which the operations keep only if
+      (1) F is touched by one side only — it is a plain member: the side that tests it (consumer for a cache of _head);
+      (2) that side writes nothing into F but a load of X (its order is R4's business);
+      (3) every OTHER function that stores an index — the quiescent operations, which renumber the positions (clear: both := 0,
+          resize: tail := 0, head := items kept) — also re-establishes F, with the value it stores to X (exact) or to the own index
+          (cache empty ⇒ next test re-loads).  A function that renumbers and leaves F alone makes the side that owns F trust a head
+          that no longer exists."""
+    for F, X in sorted(caches.items()):
+        side = "consumer" if X == "_head" else "producer"
+        own = "_tail" if X == "_head" else "_head"
+        users = sorted({last(f.name) for f in ms if role_of.get(f.sig) == side and any(n.get("k") == "member" and n.get("n") == F for n in f.nodes.values())})
+        for f in ms:
+            accs = [n for n in f.nodes.values() if n.get("k") == "member" and n.get("n") == F]
+            ops = _atomic_ops(f, cls)
+            idx_stores = [(e, fld) for (e, fld, k, _) in ops if k in ("store", "rmw")]
+            role = role_of.get(f.sig)
+            if f.kind == "ctor":
+                continue
+            if role is not None:
+                if not accs:
+                    continue
+                r5.instance()
+                # (1)
+                if not r5.expect(role == side, f, f.elem_for(accs[0]), "index cache used on the wrong side",
+                                 "%s is a plain member holding the %s side's cached copy of %s (%s), but %s::%s — a %s-side operation — accesses it: the two sides run "
+                                 "concurrently, this is a data race and the cached bound means nothing here" % (last(F), side, X, ", ".join(users) or "-", last(cls), last(f.name), role),
+                                 okdesc="%s::%s (%s) uses its side's cached copy %s of %s" % (last(cls), last(f.name), role, last(F), X)):
+                    continue
+                # (2)
+                for (e, n, k) in common.field_writes(f, F):
+                    v = common.assigned_value(f, n)
+                    if k != "write" or v is None or not _is_index_load(f, cls, v, X, direct=True):
+                        raise AnalysisBroken("%s::%s writes the index cache %s with `%s`, which is not a load of %s: not a form this rule evaluates" % (last(cls), last(f.name), last(F), show(v)[:40] if v else "?", X))
+                continue
+            # (3) not a producer/consumer operation
+            if not idx_stores:
+                if any(access.classify(f, n) in ("write", "rw") for n in accs):
+                    raise AnalysisBroken("%s::%s writes the index cache %s but is neither a producer/consumer operation nor one that stores an index" % (last(cls), last(f.name), last(F)))
+                continue
+            r5.instance()
+            writes = [(e, n) for (e, n, k) in common.field_writes(f, F)]
+            stored = {}
+            for (e, fld) in idx_stores:
+                a = e.node.get("args") or []
+                val = a[1] if e.node.get("k") == "opcall" and len(a) > 1 else (a[0] if a else None)
+                stored.setdefault(fld, []).append(show(strip_casts(val)) if val is not None else "?")
+            what = " and ".join("%s := %s" % (k, "/".join(v)) for k, v in sorted(stored.items()))
+            # a path entry → index store → exit on which F is never written
+            def is_refresh(x, writes=writes):
+                return any(x is we for (we, _) in writes)
+            wit = None
+            for (se, _fld) in idx_stores:
+                if search(f, ("entry",), lambda x, se=se: x is se, stop=is_refresh, eh=False) is not None:
+                    wit = wit or search(f, se, "exit", stop=is_refresh, eh=False)
+            if wit is not None and any(g is not f and common.field_writes(g, F) for g in _transitive_helpers(fb, cls, f).values()):
+                raise AnalysisBroken("%s::%s re-establishes the index cache %s inside a helper: not followed by C10-R5" % (last(cls), last(f.name), last(F)))
+            if not r5.expect(wit is None, f, idx_stores[-1][0], "index cache not refreshed",
+                             "%s::%s() renumbers the positions (%s) but leaves %s unchanged — the %s-side cached copy of %s, which %s compare%s with the %s position instead "
+                             "of re-loading %s.  After this call the %s still trusts the old %s: %s" % (
+                                 last(cls), last(f.name), what, last(F), side, X, ", ".join(users) or "the %s operations" % side, "s" if len(users) == 1 else "", side, X, side, X[1:],
+                                 "it takes slots that were never put (or were already taken) and its index overtakes the producer's — items delivered twice / out of thin air, size() wraps" if X == "_head"
+                                 else "it refuses pushes although there is room, or overwrites items that were not taken yet"),
+                             okdesc="%s::%s re-establishes the index cache %s when it renumbers the positions" % (last(cls), last(f.name), last(F)),
+                             witness=witness_str(f, wit)):
+                continue
+            for (e, n) in writes:
+                v = common.assigned_value(f, n)
+                sv = show(strip_casts(v)) if v is not None else None
+                if not (sv is not None and (sv in stored.get(X, []) or sv in stored.get(own, []) or _is_index_load(f, cls, v, X, direct=True))):
+                    raise AnalysisBroken("%s::%s sets the index cache %s to `%s`, which is neither the value it stores to %s nor to %s: not a form this rule evaluates" % (last(cls), last(f.name), last(F), sv, X, own))
 
 
 QUIESCENT = {"size": "documented: approximate, not for synchronisation", "empty": "via size()", "full": "via size()",
@@ -335,14 +826,18 @@ QUIESCENT = {"size": "documented: approximate, not for synchronisation", "empty"
 
 def r4_r5(ctx, r4, r5):
     fb = ctx.fb()
+    _CACHES["fb"] = fb
     roles = 0
     for cls in RB_CLASSES:
         ms = [f for f in fb.functions if f.ok and f.cls == cls and f.kind == "method" and f.file.endswith(RB_FILE)]
         if len(ms) < 8:
             raise AnalysisBroken("%s: %d method bodies found" % (cls, len(ms)))
+        _CACHES[cls] = {}
+        _CACHES[cls] = _find_index_caches(fb, cls, ms)
+        role_of = {}
         for f in ms:
-            ops = _atomic_ops(f, cls)
-            bufs = _buffer_accesses(f, cls)
+            ops = _atomic_ops(f, cls, fb)
+            bufs = _buffer_accesses(f, cls, fb)
             stores = {fld for (_, fld, k, _) in ops if k in ("store", "rmw")}
             name = last(f.name)
             if name in QUIESCENT and not (bufs and name not in ("resize",)):
@@ -364,6 +859,7 @@ def r4_r5(ctx, r4, r5):
             if role is None:
                 continue
             roles += 1
+            role_of[f.sig] = role
             mine, other = ("_head", "_tail") if role == "producer" else ("_tail", "_head")
             for (e, fld, kind, order) in ops:
                 r4.instance()
@@ -388,7 +884,9 @@ def r4_r5(ctx, r4, r5):
                     r5.expect(w is None, f, be, "slot access after publish",
                               "a slot access is reachable after the index store that publishes it", witness=witness_str(f, w),
                               okdesc="%s::%s: slot access precedes the %s store" % (last(cls), name, mine))
-                _bound_obligation(r5, f, cls, role, be, bn)
+                _bound_obligation(r5, f, cls, role, be, bn, fb)
+        if _CACHES[cls]:
+            _cache_discipline(r5, fb, cls, ms, role_of, _CACHES[cls])
     if roles < 12:
         raise AnalysisBroken("C10-R4: only %d producer/consumer functions classified, expected 12" % roles)
 
@@ -402,15 +900,21 @@ def _local_init(f, var):
     return None
 
 
-def _is_index_load(f, cls, n, fld):
-    """n is a local variable initialised from <fld>.load() (or the load itself)"""
+def _is_index_load(f, cls, n, fld, direct=False):
+    """n is a local variable initialised from <fld>.load() (or the load itself) — or, unless direct, this side's cached copy of
+    <fld> (a member found by _find_index_caches; what makes it as good as a load is discharged by _cache_discipline)"""
     n = strip_casts(n)
     if n is None:
         return False
     if n.get("k") == "var":
-        n = _local_init(f, n)
+        n = strip_casts(_local_init(f, n))
         if n is None:
             return False
+    fb = _CACHES.get("fb")
+    if fb is not None and n.get("k") in ("call", "mcall") and _expr_helper(fb, cls, n) is not None:
+        n = strip_casts(_inline(fb, cls, n))       # `auto tail = loadTail();`
+    if not direct and n.get("k") == "member" and _CACHES.get(cls, {}).get(n.get("n")) == fld:
+        return True
     return n.get("k") == "mcall" and field_of(n.get("obj")) == cls + "::" + fld
 
 
@@ -453,13 +957,15 @@ def _min_of(n):
     return None
 
 
-def _bound_obligation(r5, f, cls, role, be, bn):
+def _bound_obligation(r5, f, cls, role, be, bn, fb=None):
     """the slot access is dominated by the not-full (producer) / not-empty (consumer) edge, or sits in a loop
     bounded by min(count, available)"""
     name = last(f.name)
 
     def classify_cond(c):
         c = strip_casts(c)
+        if c is not None and fb is not None and _calls_helper(fb, cls, c):
+            c = strip_casts(_inline(fb, cls, c))      # `if (isFull(head, tail))`: the test is the helper's expression over the arguments
         if c is None or c.get("k") != "bin":
             return None
         op = c["op"]
@@ -475,17 +981,31 @@ def _bound_obligation(r5, f, cls, role, be, bn):
         return None
     # (a) single-slot form
     from ..cfg import dominated_by_edge
+    tests = []
+    near = []
     for b in f.blocks.values():
         c = b.cond
-        if c is None or b.term["k"] != "IfStmt":
+        # any two-way branch that is not a loop head: an `if`, or one operand of a short-circuit chain (`if (full || stopping) return false;`
+        # branches on the full test in a block of its own, terminator `||`); successor 0 is the edge on which the stored condition holds
+        if c is None or len(b.succs) != 2 or b.edge_label(0) is not True or b.term["k"] in ("ForStmt", "WhileStmt", "DoStmt", "CXXForRangeStmt"):
             continue
         cl = classify_cond(c)
         if cl is None:
+            ci = strip_casts(_inline(fb, cls, c)) if fb is not None else strip_casts(c)
+            if ci is not None and ci.get("k") == "bin" and ci.get("op") in ("<", ">", "<=", ">=", "==", "!=") and classify_cond(dict(ci, op="==")) is not None:
+                near.append(show(ci))      # the right operands, an operator that is neither the test nor its negation: named in the report
             continue
         free_edge = 1 if cl == "blocked" else 0
+        tests.append((b.id, free_edge))
         if dominated_by_edge(f, be, b, free_edge, eh=False):
             r5.ok("%s::%s: slot access dominated by the %s edge of `%s`" % (last(cls), name, "false" if free_edge else "true", show(c)))
             return
+    # (a') several tests (test the cached index, re-load and test again): no single edge dominates, but with the free edge of every
+    # test removed the access is unreachable — every path to it has passed a test that said not-full / not-empty.  (The operands
+    # are this call's snapshots and caches: a bound that held at the test still holds at the access.)
+    if len(tests) > 1 and search(f, ("entry",), lambda x: x is be, edge_ok=lambda b, si: (b.id, si) not in tests, eh=False) is None:
+        r5.ok("%s::%s: every path to the slot access takes the free edge of one of %d %s tests" % (last(cls), name, len(tests), "full" if role == "producer" else "empty"))
+        return
     # (b) batch form: enclosing loop `i < n` with n = min(count, available), available = cap - (head - tail) | head - tail
     for b in f.blocks.values():
         if b.term and b.term["k"] in ("ForStmt", "WhileStmt") and b.cond is not None:
@@ -496,6 +1016,7 @@ def _bound_obligation(r5, f, cls, role, be, bn):
                 mn = _min_of(init)
                 if mn:
                     for cand in mn:
+                        cand = strip_casts(cand)
                         ci = _local_init(f, cand) if cand.get("k") == "var" else cand
                         ci = strip_casts(ci) if ci else None
                         if ci is None:
@@ -506,9 +1027,17 @@ def _bound_obligation(r5, f, cls, role, be, bn):
                         if role == "consumer" and _is_used(f, cls, ci):
                             r5.ok("%s::%s: batch loop bounded by min(maxCount, head - tail)" % (last(cls), name))
                             return
+    # a helper of the class that is more than an expression (`if (!reserve(head)) return false;`) may hold the test: this rule keeps
+    # no summary of such a helper, so the shape is refused, not reported
+    if fb is not None:
+        for x in f.stmts():
+            if _helper_fns(fb, cls, x.node) and _expr_helper(fb, cls, x.node) is None and search(f, x, lambda y: y is be, eh=False) is not None:
+                raise AnalysisBroken("%s::%s: the call `%s` on a path to the slot access may hold the %s test; helpers that are not a single returned expression are not followed by C10-R5"
+                                     % (last(cls), name, show(x.node)[:50], "full" if role == "producer" else "empty"))
     r5.fail(f, be, "slot access unbounded",
             "the slot access `%s` is not dominated by the %s test (`head - tail >= capacity` / `tail >= head`) nor inside a loop bounded by "
-            "min(count, available): the %s can overrun the other side" % (show(bn), "full" if role == "producer" else "empty", role))
+            "min(count, available): the %s can overrun the other side%s" % (show(bn), "full" if role == "producer" else "empty", role,
+                                                                          "; `%s` compares the right operands but with an operator that is not that test" % near[0] if near else ""))
 
 
 def r6(ctx, r):
@@ -589,6 +1118,8 @@ def r6(ctx, r):
         raise AnalysisBroken("resize: loop body is not a single element assignment (%d)" % len(body))
     asg = body[0].node
     lhs, rhs = (asg["args"][0], asg["args"][1]) if asg.get("k") == "opcall" else (asg["lhs"], asg["rhs"])
+    # a slot reached through an expression helper of the class (`slot(start + i)`) is the helper's `_buffer[pos & _mask]` over the argument
+    lhs, rhs = _inline(ctx.fb(), DRB, lhs), _inline(ctx.fb(), DRB, rhs)
 
     def index_of(n):
         for x in walk(n):
